@@ -128,4 +128,7 @@ func factsC01() {
 	emitStr("f_msg_read_text", normText("bus/net/message.go", "Message", "Read"))
 	emitStr("f_readN_text", normText("type/basic/basic.go", "", "ReadN"))
 	emitStr("f_writeN_text", normText("type/basic/basic.go", "", "WriteN"))
+	emitStr("f_msg_write_text", normText("bus/net/message.go", "Message", "Write"))
+	emitStr("f_header_read_text", normText("bus/net/message.go", "Header", "Read"))
+	emitStr("f_header_write_text", normText("bus/net/message.go", "Header", "Write"))
 }
